@@ -63,6 +63,48 @@ class HarnessError(Exception):
     """Something in the machinery (not in cherrypy) went wrong: exit 2."""
 
 
+class _Alarm(BaseException):
+    pass
+
+
+def _with_alarm(seconds, fn):
+    """Run fn() in the main thread under SIGALRM; raise _Alarm when it does not return in time."""
+    import signal
+    if seconds <= 0 or not hasattr(signal, 'SIGALRM'):
+        return fn()
+
+    def _handler(signum, frame):
+        raise _Alarm()
+    old = signal.signal(signal.SIGALRM, _handler)
+    signal.alarm(seconds)
+    try:
+        return fn()
+    finally:
+        signal.alarm(0)
+        signal.signal(signal.SIGALRM, old)
+
+
+def start_watchdog(tier):
+    """Last line of defence against a hang (of the harness or of code under test that no per-property
+    guard caught): after VERIF_WATCHDOG seconds the process prints HARNESS-TIMEOUT and exits 2."""
+    import threading
+    limit = int(os.environ.get('VERIF_WATCHDOG', '2400' if tier == 'quick' else '14400'))
+    if limit <= 0:
+        return
+
+    def _bark():
+        time.sleep(limit)
+        try:
+            sys.stdout.write('HARNESS-TIMEOUT: check still running after %d s (watchdog)\n' % limit)
+            sys.stdout.flush()
+        finally:
+            try:
+                os.killpg(os.getpgid(0), 15) if os.environ.get('VERIF_WATCHDOG_KILLPG') else None
+            finally:
+                os._exit(2)
+    threading.Thread(target=_bark, name='verif-watchdog', daemon=True).start()
+
+
 def _strip_lean_comments(src: str) -> str:
     out, i, depth, n = [], 0, 0, len(src)
     while i < n:
@@ -133,6 +175,7 @@ class LeanStatus:
         self.audit = {}            # theorem -> sorted list of axioms, or None when missing
         self.forbidden = []        # "file:line: token"
         self.tables_changed = []
+        self.tables_problem = None # tables() hung / raised on the live modules (tie model<->code broken)
         self.leanchecker = None
         self.wall = 0.0
 
@@ -142,7 +185,7 @@ class LeanStatus:
 
     @property
     def ok(self):
-        return (self.build_ok and not self.forbidden
+        return (self.build_ok and not self.forbidden and not self.tables_problem
                 and len(self.discharged) == len(self.audit) and len(self.audit) > 0)
 
     def problems(self):
@@ -150,6 +193,8 @@ class LeanStatus:
         if not self.build_ok:
             p.append('lake build failed: ' + self.build_log[-1500:])
         p += ['forbidden token ' + f for f in self.forbidden]
+        if self.tables_problem:
+            p.append(self.tables_problem)
         for t, ax in self.audit.items():
             if ax is None:
                 p.append('theorem %s not found / not checked' % t)
@@ -174,11 +219,27 @@ def lean_prepare(mod, ctx) -> LeanStatus:
     st = LeanStatus()
     t0 = time.time()
     os.makedirs(os.path.join(LEAN, '.audit'), exist_ok=True)
+    # tables() executes the code under test: it runs OUTSIDE the global build lock and under a time
+    # limit, so that a change to /repo that makes an introspected function hang cannot block the other
+    # checks (or this one forever).  A table that cannot be regenerated is a broken tie between model
+    # and code: it is reported like a broken proof obligation (verdict rule: search, then VIOLATION).
+    new_tables, tables_problem = {}, None
+    if hasattr(mod, 'tables'):
+        try:
+            new_tables = _with_alarm(int(os.environ.get('VERIF_TABLES_TIMEOUT', '300')),
+                                     lambda: mod.tables(ctx))
+        except _Alarm:
+            tables_problem = 'tables(): regenerating the tables from the live modules did not finish in time'
+        except HarnessError:
+            raise
+        except Exception as e:      # the introspected code raised: the tie is broken, not the harness
+            tables_problem = 'tables(): %r while regenerating the tables from the live modules' % (e,)
     lockf = open(os.path.join(VERIF, '.lock'), 'w')
     fcntl.flock(lockf, fcntl.LOCK_EX)
     try:
-        if hasattr(mod, 'tables'):
-            for rel, content in mod.tables(ctx).items():
+        st.tables_problem = tables_problem
+        if new_tables:
+            for rel, content in new_tables.items():
                 path = os.path.join(LEAN, rel)
                 old = open(path).read() if os.path.exists(path) else None
                 if old != content:
@@ -513,6 +574,7 @@ def main(argv=None):
         print('no check module for', prop, e)
         return 2
     ctx = Ctx(mod, tier, seed)
+    start_watchdog(tier)
     try:
         ctx.lean = lean_prepare(mod, ctx)
         if replay is not None:
